@@ -75,6 +75,29 @@ Proof.
   apply in_digits65. destruct o as [s|]; simpl in *; lia.
 Qed.
 
+(** a legal move never leaves the mover's king attacked: by definition of [try_move] *)
+Lemma try_move_safe : forall cls p i t c, In c (try_move cls p i t) ->
+  in_check_side (placed cls c) (negb (wtm c)) = false.
+Proof.
+  intros cls p i t c H. unfold try_move in H.
+  destruct (in_check_side (placed cls (apply_move p i t)) (wtm p)) eqn:E; [destruct H|].
+  destruct H as [H|[]]. subst c. simpl. rewrite negb_involutive. exact E.
+Qed.
+
+Lemma moves_mover_safe : forall cls p c, In c (moves cls p) ->
+  in_check_side (placed cls c) (negb (wtm c)) = false.
+Proof.
+  intros cls p c H. unfold moves in H. apply in_flat_map in H.
+  destruct H as [[i [[col k] o]] [_ H]]. simpl in H.
+  destruct o as [s|]; [|destruct H].
+  destruct (Bool.eqb col (wtm p)); [|destruct H].
+  apply in_flat_map in H. destruct H as [t [_ H]].
+  destruct (man_at (placed cls p) t) as [[c' k']|].
+  - destruct (Bool.eqb c' col); [destruct H|]. destruct (is_king k'); [destruct H|].
+    exact (try_move_safe cls p i t c H).
+  - exact (try_move_safe cls p i t c H).
+Qed.
+
 Section Sound.
   Variable cls : list man.
   Variable T : table.
@@ -115,7 +138,8 @@ Section Sound.
     unfold legal in Hp. rewrite Hp in C.
     apply andb_true_iff in C. destruct C as [C1 C2].
     split; [apply tlabel_eqb_eq; exact C1|].
-    rewrite forallb_forall in C2. exact C2.
+    rewrite forallb_forall in C2. intros c Hc. unfold legal, legalb.
+    rewrite (C2 c Hc), (moves_mover_safe cls p c Hc). reflexivity.
   Qed.
 
   Lemma check_cert : check_table cls T = true -> forall p, legal p ->
